@@ -59,7 +59,8 @@ structure S where
   cbF3 : Nat         -- netFD.Close: closed++
   cbF3b : Nat        --              load detaching
   cbF3c : Nat        --              close(2)
-  cbF4 : Nat         -- closeBuffer: Len()
+  cbF4 : Nat         -- closeBuffer: Len(), having loaded a non-nil OnConnect or OnRequest
+  cbF4n : Nat        -- closeBuffer: Len(), having loaded nil for both callbacks
   cbF4b : Nat        --              inputBuffer.Close() (length := 0)
   cbFx : Nat         -- exit of the finalizer callback
   cbDone : Nat
@@ -108,6 +109,10 @@ structure S where
   ocEnds : Nat
   reqRuns : Nat
   panics : Nat
+  ocPanics : Nat       -- OnConnect panicked (`connecting` stays held)
+  connLeak : Nat       -- onConnect() returned with `connecting` held because `processing` was taken
+  cbStartOr : Bool     -- an OnRequest handler was set when the first execution of the callback list started
+  hupOwed : Bool       -- the hang-up goroutine found OnConnect or OnRequest set (so it owes the close callbacks)
   detachWon : Bool
   hupWon : Bool
   userClosed : Bool
@@ -122,17 +127,17 @@ def init (server hasOC hasOD orSet : Bool) : S :=
     registered := false, deleted := false, peerClosed := false,
     cU1 := 0, cU2 := 0, cU3 := 0, cU4 := 0, cU5 := 0, cU6 := 0, dPc := 0,
     cbD := 0, cbCall := 0, cbIn := 0, cbF1 := 0, cbF1b := 0, cbF2 := 0, cbF2b := 0, cbF3 := 0, cbF3b := 0, cbF3c := 0,
-    cbF4 := 0, cbF4b := 0, cbFx := 0, cbDone := 0,
+    cbF4 := 0, cbF4n := 0, cbF4b := 0, cbFx := 0, cbDone := 0,
     hPc := 0, pPc := 0, pN := 0, aPc := if server then 1 else 20, sPc := 0, relHold := 0,
     tC0 := 0, tOCe := 0, tOC := 0, tC2 := 0, tC3 := 0, tD1 := 0, tD2 := 0, tD3 := 0, tODe := 0, tOD := 0, tD4 := 0,
     t3 := 0, tHe := 0, tH := 0, t4a := 0, t4b0 := 0, t4b2 := 0, t6 := 0, t7a := 0, t7b := 0, t8a := 0, t8b := 0,
     tP1 := 0, tP2a := 0, tP2b := 0,
     cbRuns := 0, cbStartLen := 0, cbStartClosing := 0, fdCloses := 0, slotFrees := 0, epollDels := 0, discRuns := 0,
-    ocStarts := 0, ocEnds := 0, reqRuns := 0, panics := 0,
+    ocStarts := 0, ocEnds := 0, reqRuns := 0, panics := 0, ocPanics := 0, connLeak := 0, cbStartOr := false, hupOwed := false,
     detachWon := false, hupWon := false, userClosed := false, d7 := false }
 
-inductive Act where
-  -- closers (connection.onClose / closeCallback(true, ·))
+/-- closers and Detach (connection.onClose / closeCallback(true, ·)) -/
+inductive CAct where
   | closeNew (ok : Bool)      -- a new Close call: U1 closeBy(user)
   | cU1 (ok : Bool)           -- U1 of a pending closer (panic path of a task)
   | cU2 (room : Bool)         -- U2 triggerRead
@@ -143,31 +148,48 @@ inductive Act where
   | dCall                     -- Detach() called
   | dStore                    -- detaching := 1
   | dCas (ok : Bool)          -- its closeBy(user)
-  -- CB
+  deriving DecidableEq, Repr
+
+/-- the callback list -/
+inductive BAct where
   | cbDet (r : Nat)           -- detached++ (epoll DEL iff it was 0)
   | cbEnterU | cbExitU        -- a user / untrack callback
   | cbEnterF                  -- the finalizer callback
   | cbF1 (ok : Bool) | cbF1b (v : Nat)
   | cbF2 (ok : Bool) | cbF2b (v : Nat)
   | cbF3 (r : Nat) | cbF3b (v : Nat) | cbF3c
-  | cbF4 (v : Nat) | cbF4b | cbFx
-  -- hang-up goroutine (connection.onHup)
+  | cbF4 (v : Nat) | cbF4n (v : Nat) | cbF4b | cbFx
+  deriving DecidableEq, Repr
+
+/-- hang-up goroutine (connection.onHup) -/
+inductive HAct where
   | hCas (ok : Bool) | hRd (room : Bool) | hWr (room : Bool)
   | hSetSt | hODe | hODx
   | hGet (v : Nat) | hConn (ok : Bool) | hSt (ok : Bool) | hODe2 | hODx2 | hUnl
   | hLen (v : Nat) | hGet2 (v : Nat) | hProc (ok : Bool) | hLock (ok : Bool)
-  -- poller
+  deriving DecidableEq, Repr
+
+/-- poller -/
+inductive PAct where
   | pFetch | pPeerClose
   | pDo (ok : Bool) | pRead (n : Nat) | pAck (r : Nat) | pGet (v : Nat) | pLock (ok : Bool) | pTrig (room : Bool)
   | pFinish | pDone | pHup | pDet (r : Nat) | pHDone
-  -- acceptor / constructor
+  deriving DecidableEq, Repr
+
+/-- acceptor (server.onAccept) / client constructor -/
+inductive AAct where
   | aPrepE | aPrepX | aAct1 (v : Nat) | aReg (ok : Bool) | aAct2 (v : Nat) | aSt (ok : Bool) | aConn (ok : Bool) | aProc (ok : Bool)
   | cAct (v : Nat) | cReg (ok : Bool)
-  -- SetOnRequest
+  deriving DecidableEq, Repr
+
+/-- SetOnRequest, observers, user code inside callbacks -/
+inductive UAct where
   | sCall | sLen (v : Nat) | sGet (v : Nat) | sLock (ok : Bool)
-  -- observers / user code
   | obsLoad (v : Nat) | uLen (v : Nat) | uConsume (n r : Nat) | relDo (ok : Bool) | relDone
-  -- handler task (closure in connection.onProcess)
+  deriving DecidableEq, Repr
+
+/-- handler task (closure in connection.onProcess) -/
+inductive TAct where
   | tC0 (ok : Bool) | tOCenter | tOCexit | tOCpanic | tC2 | tC3 (v : Nat)
   | tD1 (v : Nat) | tD2 (ok : Bool) | tD3 (ok : Bool) | tODenter | tODexit | tD4
   | t3 (v : Nat) | tHenter | tHexit | tHpanic
@@ -176,18 +198,35 @@ inductive Act where
   | tP1 (v : Nat) | tP2a | tP2b (v : Nat)
   deriving DecidableEq, Repr
 
+/-- one action of one actor -/
+inductive Act where
+  | c (a : CAct) | b (a : BAct) | h (a : HAct) | p (a : PAct) | a (a : AAct) | u (a : UAct) | t (a : TAct)
+  deriving DecidableEq, Repr
+
 /-- a processing task is (re)started at START: without OnRequest there is no `Len()` point before the loop -/
 def toStart (s : S) : S := if s.orSet then { s with t3 := s.t3 + 1 } else { s with t4a := s.t4a + 1 }
 
-/-- the holder of `processing` starts the callback list (closeCallback after the lock) -/
-def enterCB (s : S) (detach : Bool) : S :=
-  let s1 := { s with cbRuns := s.cbRuns + 1,
-                     cbStartLen := if s.cbRuns = 0 then s.inLen else s.cbStartLen,
-                     cbStartClosing := if s.cbRuns = 0 then s.closing else s.cbStartClosing }
-  if detach then { s1 with cbD := s1.cbD + 1 } else { s1 with cbCall := s1.cbCall + 1 }
+/-- `new` if this is the first execution of the callback list (`runs = 0`), else the recorded value -/
+def pick (runs new old : Nat) : Nat := if runs = 0 then new else old
+def pickB (runs : Nat) (new old : Bool) : Bool := if runs = 0 then new else old
+
+/-- the holder of `processing` starts the callback list (closeCallback after the lock), first detaching -/
+def enterCBd (s : S) : S :=
+  { s with cbRuns := s.cbRuns + 1, cbStartLen := pick s.cbRuns s.inLen s.cbStartLen,
+           cbStartClosing := pick s.cbRuns s.closing s.cbStartClosing,
+           cbStartOr := pickB s.cbRuns s.orSet s.cbStartOr, cbD := s.cbD + 1 }
+
+/-- … without detach -/
+def enterCBn (s : S) : S :=
+  { s with cbRuns := s.cbRuns + 1, cbStartLen := pick s.cbRuns s.inLen s.cbStartLen,
+           cbStartClosing := pick s.cbRuns s.closing s.cbStartClosing,
+           cbStartOr := pickB s.cbRuns s.orSet s.cbStartOr, cbCall := s.cbCall + 1 }
+
+def enterCB (s : S) (detach : Bool) : S := if detach then enterCBd s else enterCBn s
 
 /-- leaving the task's loop with `closedBy = v` -/
-def exitLoop (s : S) (v : Nat) : S := if v = 0 then { s with t6 := s.t6 + 1 } else enterCB s (v == 1)
+def exitLoop (s : S) (v : Nat) : S :=
+  if v = 0 then { s with t6 := s.t6 + 1 } else if v = 1 then enterCBd s else enterCBn s
 
 /-- second double-check of the task (`onRequest != nil && Len() > 0 && lock`) -/
 def toT8 (s : S) : S := if s.orSet then { s with t8a := s.t8a + 1 } else s
@@ -195,7 +234,7 @@ def toT8 (s : S) : S := if s.orSet then { s with t8a := s.t8a + 1 } else s
 /-- hang-up goroutine after onDisconnect(): H5 and the D6 fix -/
 def toH5 (s : S) : S :=
   if !s.hasOC && !s.orSet then { s with hPc := 99 }
-  else if s.orSet then { s with hPc := 13 } else { s with hPc := 16 }
+  else if s.orSet then { s with hPc := 13, hupOwed := true } else { s with hPc := 16, hupOwed := true }
 
 /-- hang-up goroutine entering onDisconnect() -/
 def hDisc (s : S) : S :=
@@ -206,8 +245,11 @@ def tDisc (s : S) : S := if !s.hasOD then toStart s else { s with tD1 := s.tD1 +
 
 def b2n (b : Bool) : Nat := if b then 1 else 0
 
+/-- CB runner entering closeBuffer: the two callback loads happen here, before the `Len()` point -/
+def toF4 (s : S) : S := if s.hasOC ∨ s.orSet then { s with cbF4 := s.cbF4 + 1 } else { s with cbF4n := s.cbF4n + 1 }
+
 /-- closers, Detach -/
-def stepCloser (s : S) : Act → Option S
+def stepCloser (s : S) : CAct → Option S
   | .closeNew ok =>
       if ok = (s.closing == 0) then
         (if ok then some { s with closing := 1, cU2 := s.cU2 + 1, userClosed := true }
@@ -224,14 +266,14 @@ def stepCloser (s : S) : Act → Option S
       if s.cU3 > 0 ∧ room = (s.wr == 0) then some { s with wr := 1, cU3 := s.cU3 - 1, cU4 := s.cU4 + 1 } else none
   | .cU4 ok =>
       if s.cU4 > 0 ∧ ok = (s.processing == 0) then
-        (if ok then some (enterCB { s with processing := 1, cU4 := s.cU4 - 1 } true)
+        (if ok then some (enterCBd { s with processing := 1, cU4 := s.cU4 - 1 })
          else some { s with cU4 := s.cU4 - 1 })
       else none
   | .cU5 =>
       if s.cU5 > 0 then some { s with closing := 1, userClosed := true, cU5 := s.cU5 - 1, cU6 := s.cU6 + 1 } else none
   | .cU6 ok =>
       if s.cU6 > 0 ∧ ok = (s.processing == 0) then
-        (if ok then some (enterCB { s with processing := 1, cU6 := s.cU6 - 1 } false)
+        (if ok then some (enterCBn { s with processing := 1, cU6 := s.cU6 - 1 })
          else some { s with cU6 := s.cU6 - 1 })
       else none
   | .dCall => if s.dPc = 0 then some { s with dPc := 1 } else none
@@ -241,10 +283,9 @@ def stepCloser (s : S) : Act → Option S
         (if ok then some { s with closing := 1, dPc := 3, cU2 := s.cU2 + 1, userClosed := true, detachWon := true }
          else some { s with dPc := 3, cU5 := s.cU5 + 1 })
       else none
-  | _ => none
 
 /-- the callback list: optional detach, user callbacks, finalizer (stop flushing, free operator, close fd, buffers) -/
-def stepCB (s : S) : Act → Option S
+def stepCB (s : S) : BAct → Option S
   | .cbDet r =>
       if s.cbD > 0 ∧ r = s.detached + 1 then
         (if s.detached = 0 then
@@ -277,25 +318,25 @@ def stepCB (s : S) : Act → Option S
   | .cbF3 r =>
       if s.cbF3 > 0 ∧ r = s.fdClosed + 1 then
         (if s.fdClosed = 0 then some { s with fdClosed := r, cbF3 := s.cbF3 - 1, cbF3b := s.cbF3b + 1 }
-         else some { s with fdClosed := r, cbF3 := s.cbF3 - 1, cbF4 := s.cbF4 + 1 })
+         else some (toF4 { s with fdClosed := r, cbF3 := s.cbF3 - 1 }))
       else none
   | .cbF3b v =>
       if s.cbF3b > 0 ∧ v = s.detaching then
         (if v = 0 then some { s with cbF3b := s.cbF3b - 1, cbF3c := s.cbF3c + 1 }
-         else some { s with cbF3b := s.cbF3b - 1, cbF4 := s.cbF4 + 1 })
+         else some (toF4 { s with cbF3b := s.cbF3b - 1 }))
       else none
-  | .cbF3c => if s.cbF3c > 0 then some { s with fdCloses := s.fdCloses + 1, cbF3c := s.cbF3c - 1, cbF4 := s.cbF4 + 1 } else none
-  | .cbF4 v =>
-      if s.cbF4 > 0 ∧ v = s.inLen then
-        (if v = 0 ∨ s.hasOC ∨ s.orSet then some { s with cbF4 := s.cbF4 - 1, cbF4b := s.cbF4b + 1 }
-         else some { s with cbF4 := s.cbF4 - 1, cbFx := s.cbFx + 1 })
+  | .cbF3c => if s.cbF3c > 0 then some (toF4 { s with fdCloses := s.fdCloses + 1, cbF3c := s.cbF3c - 1 }) else none
+  | .cbF4 v => if s.cbF4 > 0 ∧ v = s.inLen then some { s with cbF4 := s.cbF4 - 1, cbF4b := s.cbF4b + 1 } else none
+  | .cbF4n v =>
+      if s.cbF4n > 0 ∧ v = s.inLen then
+        (if v = 0 then some { s with cbF4n := s.cbF4n - 1, cbF4b := s.cbF4b + 1 }
+         else some { s with cbF4n := s.cbF4n - 1, cbFx := s.cbFx + 1 })
       else none
   | .cbF4b => if s.cbF4b > 0 then some { s with inLen := 0, cbF4b := s.cbF4b - 1, cbFx := s.cbFx + 1 } else none
   | .cbFx => if s.cbFx > 0 then some { s with cbFx := s.cbFx - 1, cbDone := s.cbDone + 1 } else none
-  | _ => none
 
 /-- the goroutine started by onhups(): connection.onHup -/
-def stepHup (s : S) : Act → Option S
+def stepHup (s : S) : HAct → Option S
   | .hCas ok =>
       if s.hPc = 1 ∧ ok = (s.closing == 0) then
         (if ok then some { s with closing := 2, hupWon := true, hPc := 2 } else some { s with hPc := 99 })
@@ -332,12 +373,11 @@ def stepHup (s : S) : Act → Option S
       else none
   | .hLock ok =>
       if s.hPc = 16 ∧ ok = (s.processing == 0) then
-        (if ok then some (enterCB { s with processing := 1, hPc := 99 } false) else some { s with hPc := 99 })
+        (if ok then some (enterCBn { s with processing := 1, hPc := 99 }) else some { s with hPc := 99 })
       else none
-  | _ => none
 
 /-- the poller: defaultPoll.handler for this operator (token do()/done(), inputAck, appendHup, onhups) -/
-def stepPoller (s : S) : Act → Option S
+def stepPoller (s : S) : PAct → Option S
   | .pFetch => if s.pPc = 0 ∧ s.registered ∧ !s.deleted then some { s with pPc := 1 } else none
   | .pPeerClose => if !s.peerClosed then some { s with peerClosed := true } else none
   | .pDo ok =>
@@ -369,10 +409,9 @@ def stepPoller (s : S) : Act → Option S
          else some { s with detached := r, pPc := 9 })
       else none
   | .pHDone => if s.pPc = 9 ∧ s.hPc = 0 then some { s with opState := 1, pPc := 10, hPc := 1 } else none
-  | _ => none
 
 /-- server.onAccept (init -> onPrepare -> register; IsActive; onConnect) and the client constructor -/
-def stepAcc (s : S) : Act → Option S
+def stepAcc (s : S) : AAct → Option S
   | .aPrepE => if s.aPc = 1 then some { s with aPc := 2 } else none
   | .aPrepX => if s.aPc = 2 then some { s with aPc := 3 } else none
   | .aAct1 v => if s.aPc = 3 ∧ v = s.closing then (if v = 0 then some { s with aPc := 4 } else some { s with aPc := 5 }) else none
@@ -391,14 +430,14 @@ def stepAcc (s : S) : Act → Option S
       else none
   | .aProc ok =>
       if s.aPc = 8 ∧ ok = (s.processing == 0) then
-        (if ok then some { s with processing := 1, tC0 := s.tC0 + 1, aPc := 99 } else some { s with aPc := 99 })
+        (if ok then some { s with processing := 1, tC0 := s.tC0 + 1, aPc := 99 }
+         else some { s with connLeak := s.connLeak + 1, aPc := 99 })
       else none
   | .cAct v => if s.aPc = 20 ∧ v = s.closing then (if v = 0 then some { s with aPc := 21 } else some { s with aPc := 99 }) else none
   | .cReg ok => if s.aPc = 21 ∧ ok = (s.opState == 0) ∧ ok then some { s with opState := 1, registered := true, aPc := 99 } else none
-  | _ => none
 
 /-- SetOnRequest on a client connection, observers, user code in callbacks -/
-def stepUser (s : S) : Act → Option S
+def stepUser (s : S) : UAct → Option S
   | .sCall => if !s.server ∧ s.sPc = 0 ∧ !s.orSet ∧ !s.hasOC then some { s with orSet := true, sPc := 1 } else none
   | .sLen v => if s.sPc = 1 ∧ v = s.inLen then (if v > 0 then some { s with sPc := 2 } else some { s with sPc := 99 }) else none
   | .sGet v =>
@@ -417,10 +456,9 @@ def stepUser (s : S) : Act → Option S
         (if ok then some { s with opState := 2, relHold := s.relHold + 1 } else some s)
       else none
   | .relDone => if s.relHold > 0 then some { s with opState := 1, relHold := s.relHold - 1 } else none
-  | _ => none
 
 /-- the handler task: closure in connection.onProcess (fixed code) -/
-def stepTask (s : S) : Act → Option S
+def stepTask (s : S) : TAct → Option S
   | .tC0 ok =>
       if s.tC0 > 0 ∧ ok = (s.st == 0) then
         (if ok then some { s with st := 1, tC0 := s.tC0 - 1, tOCe := s.tOCe + 1 }
@@ -428,7 +466,7 @@ def stepTask (s : S) : Act → Option S
       else none
   | .tOCenter => if s.tOCe > 0 then some { s with ocStarts := s.ocStarts + 1, tOCe := s.tOCe - 1, tOC := s.tOC + 1 } else none
   | .tOCexit => if s.tOC > 0 then some { s with ocEnds := s.ocEnds + 1, tOC := s.tOC - 1, tC2 := s.tC2 + 1 } else none
-  | .tOCpanic => if s.tOC > 0 then some { s with panics := s.panics + 1, tOC := s.tOC - 1, tP1 := s.tP1 + 1 } else none
+  | .tOCpanic => if s.tOC > 0 then some { s with panics := s.panics + 1, ocPanics := s.ocPanics + 1, tOC := s.tOC - 1, tP1 := s.tP1 + 1 } else none
   | .tC2 => if s.tC2 > 0 then some { s with connecting := 0, tC2 := s.tC2 - 1, tC3 := s.tC3 + 1 } else none
   | .tC3 v =>
       if s.tC3 > 0 ∧ v = s.closing then
@@ -496,41 +534,26 @@ def stepTask (s : S) : Act → Option S
         (if v = 0 then some { s with tP1 := s.tP1 - 1, tP2a := s.tP2a + 1 } else some { s with tP1 := s.tP1 - 1, tP2b := s.tP2b + 1 })
       else none
   | .tP2a => if s.tP2a > 0 then some { s with processing := 0, tP2a := s.tP2a - 1, cU1 := s.cU1 + 1 } else none
-  | .tP2b v => if s.tP2b > 0 ∧ v = s.closing then some (enterCB { s with tP2b := s.tP2b - 1 } (v == 1)) else none
-  | _ => none
-
-/-- which actor an action belongs to -/
-inductive Who | closer | cb | hup | poller | acc | user | task
-  deriving DecidableEq, Repr
-
-def Act.who : Act → Who
-  | .closeNew _ | .cU1 _ | .cU2 _ | .cU3 _ | .cU4 _ | .cU5 | .cU6 _ | .dCall | .dStore | .dCas _ => .closer
-  | .cbDet _ | .cbEnterU | .cbExitU | .cbEnterF | .cbF1 _ | .cbF1b _ | .cbF2 _ | .cbF2b _ | .cbF3 _ | .cbF3b _ | .cbF3c
-  | .cbF4 _ | .cbF4b | .cbFx => .cb
-  | .hCas _ | .hRd _ | .hWr _ | .hSetSt | .hODe | .hODx | .hGet _ | .hConn _ | .hSt _ | .hODe2 | .hODx2 | .hUnl
-  | .hLen _ | .hGet2 _ | .hProc _ | .hLock _ => .hup
-  | .pFetch | .pPeerClose | .pDo _ | .pRead _ | .pAck _ | .pGet _ | .pLock _ | .pTrig _ | .pFinish | .pDone | .pHup
-  | .pDet _ | .pHDone => .poller
-  | .aPrepE | .aPrepX | .aAct1 _ | .aReg _ | .aAct2 _ | .aSt _ | .aConn _ | .aProc _ | .cAct _ | .cReg _ => .acc
-  | .sCall | .sLen _ | .sGet _ | .sLock _ | .obsLoad _ | .uLen _ | .uConsume _ _ | .relDo _ | .relDone => .user
-  | _ => .task
+  | .tP2b v =>
+      if s.tP2b > 0 ∧ v = s.closing then
+        (if v = 1 then some (enterCBd { s with tP2b := s.tP2b - 1 }) else some (enterCBn { s with tP2b := s.tP2b - 1 }))
+      else none
 
 /-- the transition relation: `step s a = some s'` iff action `a` (with the result it carries) is possible in `s` -/
-def step (s : S) (a : Act) : Option S :=
-  match a.who with
-  | .closer => stepCloser s a
-  | .cb => stepCB s a
-  | .hup => stepHup s a
-  | .poller => stepPoller s a
-  | .acc => stepAcc s a
-  | .user => stepUser s a
-  | .task => stepTask s a
+def step (s : S) : Act → Option S
+  | .c a => stepCloser s a
+  | .b a => stepCB s a
+  | .h a => stepHup s a
+  | .p a => stepPoller s a
+  | .a a => stepAcc s a
+  | .u a => stepUser s a
+  | .t a => stepTask s a
 
 /-- environment actions: new calls by the user, network events, nondeterministic user code.  A state is quiescent
 when no OTHER action is enabled. -/
 def Act.isEnv : Act → Bool
-  | .closeNew _ | .dCall | .pFetch | .pPeerClose | .pRead _ | .pHup | .sCall | .obsLoad _ | .uLen _ | .uConsume _ _
-  | .relDo _ | .tOCpanic | .tHpanic => true
+  | .c (.closeNew _) | .c .dCall | .p .pFetch | .p .pPeerClose | .p (.pRead _) | .p .pHup | .u .sCall | .u (.obsLoad _)
+  | .u (.uLen _) | .u (.uConsume _ _) | .u (.relDo _) | .t .tOCpanic | .t .tHpanic => true
   | _ => false
 
 /-- run a list of actions -/
@@ -551,7 +574,7 @@ def Quiescent (s : S) : Prop := ∀ a : Act, a.isEnv = false → step s a = none
 -- derived quantities used by the properties
 def S.handlerActive (s : S) : Nat := s.tH
 def S.cbActive (s : S) : Nat :=
-  s.cbD + s.cbCall + s.cbIn + s.cbF1 + s.cbF1b + s.cbF2 + s.cbF2b + s.cbF3 + s.cbF3b + s.cbF3c + s.cbF4 + s.cbF4b + s.cbFx
+  s.cbD + s.cbCall + s.cbIn + s.cbF1 + s.cbF1b + s.cbF2 + s.cbF2b + s.cbF3 + s.cbF3b + s.cbF3c + s.cbF4 + s.cbF4n + s.cbF4b + s.cbFx
 
 /-- the T-gen tie: sync-operation sequences the program counters above assume (compared with Gen.Life in Tie/Life.lean) -/
 def expect_locker_closeBy : List String := ["atomic.CompareAndSwapInt32(&l.keychain[closing],0,w)"]
